@@ -39,7 +39,7 @@ func init() {
 			}, Run: c13Sections,
 				Rule: "generated metadata sections as described in the property's quantifier",
 				Min: map[string]int64{"accepted": 20000, "rejected": 20000, "viewbox_chunk": 10000, "palette_chunk": 10000, "degenerate_viewbox_accepted": 50,
-					"rejected_viewbox_inverted": 100, "rejected_viewbox_nonfinite": 100, "rejected_length": 1000, "rejected_unknown_mid": 100, "rejected_count": 100}},
+					"rejected_viewbox_inverted": 100, "rejected_viewbox_nonfinite": 100, "rejected_length": 1000, "rejected_unknown_mid": 100, "rejected_count": 100, "huge_opposite_sign_viewbox": 1000, "nonfinite_bound_position_0": 500, "nonfinite_bound_position_3": 500}},
 		},
 	})
 }
@@ -193,7 +193,7 @@ func c13Sections(c *run.Ctx, idx uint64) {
 		c.Count("viewbox_chunk", 1)
 		var ch gen.Asm
 		ch.Nat(0, gen.RandWidth(r))
-		mode := r.Intn(10)
+		mode := r.Intn(12)
 		coordNat := func(v int) { // v in 1/64 units, within [-8192, 8191]
 			if v%64 == 0 && v/64 >= -64 && v/64 < 64 && r.Bool() {
 				ch.Nat(uint32(v/64+64), 1)
@@ -250,9 +250,30 @@ func c13Sections(c *run.Ctx, idx uint64) {
 					ch.Nat(uint32(64+i*3), 1)
 				}
 			}
-		default: // wrong number of coordinates
+		case mode == 9: // wrong number of coordinates
 			for i := r.Pick(0, 1, 2, 3, 5); i > 0; i-- {
 				ch.Num(r)
+			}
+		case mode == 10: // huge finite bounds of opposite sign: valid although max-min overflows float32
+			big := []float32{3.4028235e38, 2.5e38, 1.8e38, 1e38}
+			c.Count("huge_opposite_sign_viewbox", 1)
+			ch.Nat(f4(-big[r.Intn(4)]), 4)
+			ch.Nat(f4(-big[r.Intn(4)]), 4)
+			ch.Nat(f4(big[r.Intn(4)]), 4)
+			ch.Nat(f4(big[r.Intn(4)]), 4)
+		default: // a non-finite bound of either sign in every position, the rest consistent with it
+			k := r.Intn(4)
+			nf := float32(r.PickF(math.Inf(1), math.Inf(-1), math.NaN(), -math.NaN()))
+			c.Count("nonfinite_bound_position_"+fmt.Sprint(k), 1)
+			for i := 0; i < 4; i++ {
+				switch {
+				case i == k:
+					ch.Nat(f4(nf), 4)
+				case i < 2:
+					ch.Nat(f4(-5), 4)
+				default:
+					ch.Nat(f4(5), 4)
+				}
 			}
 		}
 		chunks = append(chunks, chunk{ch.B})
